@@ -735,16 +735,50 @@ func runSystem(a *args) error {
 		os.MkdirAll(env.dir, 0755)
 		seg := []uint64{2, 3, 4, 5, 7, 10}[r.Intn(6)]
 		a.emit(map[string]any{"ev": "prog", "prog": prog, "seg": seg})
-		kind := []string{"strategies", "subsets", "resume", "forks"}[i%4]
+		kind := []string{"strategies", "subsets", "resume", "forks", "sparse"}[i%5]
 		if want != "" {
 			kind = want
 		}
 		switch kind {
 		case "strategies":
 			// a sequence of requests over the same cache: cold production, warm production (other range), development
+			paired := r.Intn(4) == 0 // first the source mapper alone, then the real output over the files that left
+			var first runCfg
 			for k := 0; k < 3+r.Intn(3); k++ {
 				cfg := randCfg(r, prog, seg)
 				cfg.Label = fmt.Sprintf("strategies/%d", k)
+				if paired && k == 0 {
+					cfg.Prod, cfg.Out = true, "m_src"
+					if uint64(cfg.Start) < prog[0].Init {
+						cfg.Start = int64(prog[0].Init)
+					}
+					cfg.Stop = uint64(cfg.Start) + 2*seg + uint64(r.Intn(8))
+					cfg.LibOK, cfg.Lib = true, cfg.Stop+uint64(r.Intn(10))
+					first = cfg
+				} else if paired && k == 1 {
+					cfg.Prod = true
+					if cfg.Start < first.Start {
+						cfg.Start = first.Start
+					}
+					cfg.Stop = uint64(cfg.Start) + 1 + seg + uint64(r.Intn(10))
+					cfg.LibOK, cfg.Lib = true, cfg.Stop+uint64(r.Intn(10))
+				} else if r.Intn(3) == 0 {
+					// another output module over the same cache directory (the graph, its stages and the files needed differ)
+					var maps []sysMod
+					for _, m := range prog {
+						if m.Kind == "map" && m.Name != "out" {
+							maps = append(maps, m)
+						}
+					}
+					if len(maps) > 0 {
+						m := maps[r.Intn(len(maps))]
+						cfg.Out = m.Name
+						if uint64(cfg.Start) < m.Init {
+							cfg.Start = int64(m.Init) + int64(r.Intn(6))
+							cfg.Stop = uint64(cfg.Start) + 1 + uint64(r.Intn(22))
+						}
+					}
+				}
 				emitRun(a, env, cfg, "", true)
 			}
 		case "subsets":
@@ -828,6 +862,8 @@ func runSystem(a *args) error {
 			}
 		case "schedcex":
 			runSchedCex(a, r, root, i)
+		case "sparse":
+			runSparseCache(a, r, root, i)
 		case "forks":
 			for k := 0; k < 3; k++ {
 				runForks(a, r, env, seg)
@@ -1226,6 +1262,52 @@ func (f streamFunc) Run(ctx context.Context) error { return f(ctx) }
 // runSchedCex replays the design-level counterexample TLC finds in MCSched_3x4 (JobInputsComplete): two store stages
 // (st2 reads st1), a cache that holds st1's snapshots for the first two segments and nothing of st2 (left by an earlier
 // request for a mapper that only reads st1), then a production request whose start block lies in the third segment.
+// runSparseCache: a request for the (sparse, skip-empty) source mapper alone leaves output files that hold only SOME blocks of
+// each segment; a later request whose other modules need no block source (clock-only store, mapper over the store) must still
+// run them on EVERY block of the segment.
+func runSparseCache(a *args, r *rand.Rand, root string, i int) {
+	body := func(kind string) vbody {
+		return vbody{Kind: kind, Emit: always(), FailAt: -1, Terms: []vterm{}, Ops: []vop{}, Keys: []vkey{}}
+	}
+	src := sysMod{Name: "m_src", Kind: "map", Inputs: []ainput{{K: "source", V: blockType}}, Filter: []any{}, Body: body("map")}
+	src.Body.Terms = []vterm{{T: "num", C: 1}, {T: "const", C: 1}}
+	src.Body.Emit = whenMod(uint64(2+r.Intn(3)), 0)
+	src.Body.SkipEmpty = true
+	st1 := sysMod{Name: "st1", Kind: "store", Inputs: []ainput{{K: "source", V: "sf.substreams.v1.Clock"}}, Filter: []any{}, Body: body("store")}
+	variant := r.Intn(4)
+	var extra []sysMod
+	if variant == 1 { // a store over the sparse mapper AND the clock
+		st1.Inputs = []ainput{{K: "source", V: "sf.substreams.v1.Clock"}, {K: "map", V: "m_src"}}
+	} else if variant == 2 { // a store over a params-only mapper (which executes on every block)
+		mp := sysMod{Name: "m_par", Kind: "map", Inputs: []ainput{{K: "params", V: "p=1"}}, Filter: []any{}, Body: body("map")}
+		mp.Body.Terms = []vterm{{T: "const", C: 1}}
+		extra = append(extra, mp)
+		st1.Inputs = []ainput{{K: "map", V: "m_par"}}
+	}
+	st1.Body.Pol, st1.Body.VT = "add", "int64"
+	st1.Body.Ops = []vop{{Op: "w", Base: 0, Step: 0, Val: []vterm{{T: "const", C: 1}}, When: always()}}
+	out := sysMod{Name: "out", Kind: "map", Inputs: []ainput{{K: "map", V: "m_src"}, {K: "store", V: "st1", Mode: []string{"get", "deltas"}[r.Intn(2)]}}, Filter: []any{}, Body: body("map")}
+	if out.Inputs[1].Mode == "get" {
+		out.Body.Terms = []vterm{{T: "in", I: 0, C: 1000}, {T: "get", I: 1, C: 1, Key: "a", How: "last", Num: true}}
+	} else {
+		out.Body.Terms = []vterm{{T: "in", I: 0, C: 1000}, {T: "dsum", I: 1, C: 1, Num: true}}
+	}
+	prog := append(append(sysProg{src}, extra...), st1, out)
+	seg := uint64(2 + r.Intn(4))
+	env := newSysEnv(filepath.Join(root, fmt.Sprintf("sparse%d", i)), prog)
+	os.MkdirAll(env.dir, 0755)
+	a.emit(map[string]any{"ev": "prog", "prog": prog, "seg": seg})
+	n := uint64(2 + r.Intn(3))
+	c1 := runCfg{Prod: true, Start: 0, Stop: n * seg, LibOK: true, Lib: (n + 2) * seg, Seg: seg, Workers: 2, Label: "strategies/sparse-prepare", Out: "m_src"}
+	emitRun(a, env, c1, "", true)
+	c2 := runCfg{Prod: true, Start: int64(r.Intn(int(seg))), Stop: n*seg + uint64(r.Intn(3)), LibOK: true, Lib: (n + 2) * seg, Seg: seg, Workers: 1 + r.Intn(3), Order: r.Int63n(1<<30) + 1, Label: "strategies/sparse-request", Out: "out"}
+	emitRun(a, env, c2, "", true)
+	c3 := c2
+	c3.Prod, c3.Label = false, "strategies/sparse-dev"
+	emitRun(a, env, c3, "", true)
+	os.RemoveAll(env.dir)
+}
+
 func runSchedCex(a *args, r *rand.Rand, root string, i int) {
 	body := func(kind string) vbody {
 		return vbody{Kind: kind, Emit: always(), FailAt: -1, Terms: []vterm{}, Ops: []vop{}, Keys: []vkey{}}
